@@ -118,11 +118,11 @@ class Section(Entity):
                 raise NameError("Name already exist. Possible solution is to "
                                 "provide a new name when copying destination "
                                 "is the same as the source parent")
-            objcopy = copy_from._parent._h5group.copy(source=src, dest=self._h5group, name=name,
-                                                      cls=clsname, keep_id=keep_copy_id)
-
-            id_ = objcopy.attrs["entity_id"]
-            return self.props[id_]
+            copy_from._parent._h5group.copy(source=src, dest=self._h5group, name=name,
+                                            cls=clsname, keep_id=keep_copy_id)
+            # looked up by name: within one file a copy that keeps its id
+            # shares it with the source
+            return self.props[name]
 
         vals = values_or_dtype
 
@@ -199,16 +199,18 @@ class Section(Entity):
             raise NameError("Name already exist. Possible solution is to "
                             "provide a new name when copying destination "
                             "is the same as the source parent")
-        sec = obj._parent._h5group.copy(source=src, dest=self._h5group,
-                                        name=name, cls=clsname,
-                                        shallow=not children,
-                                        keep_id=keep_id)
+        obj._parent._h5group.copy(source=src, dest=self._h5group,
+                                  name=name, cls=clsname,
+                                  shallow=not children,
+                                  keep_id=keep_id)
 
         if not children:
             for prop in obj.props:
                 self.sections[name].create_property(copy_from=prop, keep_copy_id=keep_id)
 
-        return self.sections[sec.attrs["entity_id"]]
+        # looked up by name: within one file a copy that keeps its id shares
+        # it with the source
+        return self.sections[name]
 
     @property
     def reference(self):
